@@ -615,7 +615,8 @@ def take(outname, inname, chunks, index, axis=0):
             }
             return tuple(chunks), graph
 
-        average_chunk_size = int(full_length / len(chunks[axis]))
+        # at least 1: an axis can have more (empty) chunks than elements
+        average_chunk_size = max(1, int(full_length / len(chunks[axis])))
 
         indexer = []
         index = asarray_safe(index, like=index)
